@@ -103,6 +103,14 @@ pub fn build_world(tapes: &mut Tapes) -> (Rc<World>, String) {
 }
 
 pub fn build_workload(tapes: &mut Tapes, bias_fold_count: bool) -> Result<Workload, BuildError> {
+    build_workload_biased(tapes, bias_fold_count, false)
+}
+
+pub fn build_workload_biased(
+    tapes: &mut Tapes,
+    bias_fold_count: bool,
+    bias_tags: bool,
+) -> Result<Workload, BuildError> {
     let (world, schema_text) = build_world(tapes);
     let schema = match catch_unwind(AssertUnwindSafe(|| Schema::parse(&schema_text))) {
         Ok(Ok(s)) => s,
@@ -112,7 +120,12 @@ pub fn build_workload(tapes: &mut Tapes, bias_fold_count: bool) -> Result<Worklo
             return Err(BuildError::SchemaRejected(schema_text, format!("panic: {info:?}")));
         }
     };
-    let cfg = QueryCfg::draw(&mut tapes.query, bias_fold_count);
+    let mut cfg = QueryCfg::draw(&mut tapes.query, bias_fold_count);
+    if bias_tags {
+        cfg.bias_tags = true;
+        cfg.f_tags = true;
+        cfg.f_filters = true;
+    }
     let q = gen_query(&world, &mut tapes.query, cfg);
     let args = gen_args(&q, &world, &mut tapes.args);
     finish_workload(world, schema_text, schema, q, args)
